@@ -124,7 +124,8 @@ def _programs(tier):
                 tests[pos] = [[op, kind]]
                 progs.append({"tests": tests})
     for i in range(len(SPECIAL)):
-        progs.append({"special": i})
+        if tier == "thorough" or not SPECIAL[i].get("thorough"):
+            progs.append({"special": i})
     if tier == "thorough":
         # two bad sites in different tests, and all-good programs of every op pair
         for o1, o2 in itertools.product(OPS, OPS):
@@ -158,6 +159,21 @@ SPECIAL += [
     {"src": _SH % ("[1]", "assert 1 in s", "assert 2 in s"), "exp": {T + "test_a": False, T + "test_b": True}, "name": "shared-wrong-in"},
     {"src": _SH % ("{'a': 1}", "assert s['a'] == 1", "assert s['b'] == 2"), "exp": {T + "test_a": False, T + "test_b": True}, "name": "shared-missing-key"},
 ]
+# one call site evaluated by several tests: every sequence of compared values around the stored one
+# (earlier evaluations leave a recorded value behind; each test must still be judged against the source)
+_HLP = "from inline_snapshot import snapshot\n\n\ndef helper(x):\n    %s\n\n\n%s"
+for _op, _st, _ok, _dom in (("<=", "assert x <= snapshot(2)", lambda x: x <= 2, (1, 2, 3, 4)), (">=", "assert x >= snapshot(3)", lambda x: x >= 3, (1, 2, 3, 4)),
+                            ("in", "assert x in snapshot([2, 3])", lambda x: x in (2, 3), (1, 2, 4)), ("==", "assert x == snapshot(2)", lambda x: x == 2, (1, 2, 3)),
+                            ("[k]", "assert snapshot({'a': 2})['a'] == x", lambda x: x == 2, (1, 2, 3)),
+                            ("[k]<=", "assert x <= snapshot({'a': 2})['a']", lambda x: x <= 2, (1, 2, 3, 4))):
+    for _n in (2, 3):
+        for _seq in itertools.product(_dom, repeat=_n):
+            if all(_ok(x) for x in _seq):
+                continue
+            if _op in ("==", "[k]") and len(set(_seq)) > 1:
+                continue  # one == snapshot compared with different values contradicts itself (outside the property)
+            SPECIAL.append({"src": _HLP % (_st, "".join("def test_%d():\n    helper(%d)\n\n\n" % (i, x) for i, x in enumerate(_seq))),
+                            "exp": {T + "test_%d" % i: not _ok(x) for i, x in enumerate(_seq)}, "name": "shared-site-seq%s%s" % (_op, list(_seq)), "thorough": _n == 3})
 for _fl in ("create", ""):
     for _arg, _val, _bad in (("reported_categories", "snapshot(['fix'])", True), ("reported_categories", "snapshot()", True),
                               ("reported_categories", "snapshot(['create'])", False),
